@@ -238,6 +238,21 @@ CLAIMS = {
         technique="Lean 4 proof (byte layout round trip, totality, determinant identity) + differential "
                   "correspondence and grammar recogniser",
         ref="DESIGN.md §6 C17"),
+    "C15": dict(
+        text="Lean 4 theorems over the orientation tables REGENERATED from the source on every run: the list "
+             "of accepted codes has 48 distinct entries and each designates a signed permutation of the axes "
+             "(kernel decide); reversing an axis is an involution on its index range; the slices of every "
+             "group, in loading order, occupy exactly the consecutive output positions of that group for ALL "
+             "slice counts and chunk depths, also for a reversed slice axis (the repaired empty-last-group "
+             "defect F16). Tie/oracle: all 48 codes on real PNG/TIFF stacks (grey/RGB, 1-2 directories, slice "
+             "counts below/at/above multiples of the chunk depth, non-cubic chunks, all layouts) converted by "
+             "convert_slices_in_directory, every voxel read back and compared with the pixel the code "
+             "designates, and with the Lean index map.",
+        note="Trusted: Lean kernel; standard axioms; hand-written index model (tie = all 48 codes per run, "
+             "random geometry); scikit-image decoding and sorted() file order (externals).",
+        technique="Lean 4 proof (decide over regenerated tables + index arithmetic) + differential "
+                  "correspondence over all 48 codes",
+        ref="DESIGN.md §6 C15"),
 }
 
 ALL = ["C%02d" % i for i in range(1, 21)]
